@@ -16,12 +16,35 @@ def run_small(ctx, cfgs, which):
         if len(cases) < 100:
             raise vlib.ToolError("MC_Stats_%s produced %d cases" % (cfg, len(cases)))
         total_cases += len(cases)
-        res = ctx.harness(["stats", "replay", ctx.write_ndjson("st_%s.ndjson" % cfg, cases)], timeout=3000)[-1]
+        res = replay_sharded(ctx, "st_%s" % cfg, cases)
         account(ctx, res, cases, which, "MC_Stats_" + cfg)
         if cfg == cfgs[0]:
             ctx.sample({"array_case": next(c for c in cases if c["def"] and c["out"] > 0)})
             selftest(ctx, cases, which)
     return total_cases
+
+
+def replay_sharded(ctx, name, cases, per_shard=20000, workers=6):
+    """`stats replay` of many small arrays: the per-call overhead of the implementation (rayon, FFT set-up) makes half a
+    million arrays take hours in one process; shards run side by side, each with a small rayon pool."""
+    from concurrent.futures import ThreadPoolExecutor
+    if len(cases) <= per_shard:
+        return ctx.harness(["stats", "replay", ctx.write_ndjson(name + ".ndjson", cases)], timeout=3000)[-1]
+    shards = [cases[i:i + per_shard] for i in range(0, len(cases), per_shard)]
+    paths = [ctx.write_ndjson("%s_%03d.ndjson" % (name, i), sh_) for i, sh_ in enumerate(shards)]
+    with ThreadPoolExecutor(max_workers=workers) as ex:
+        parts = list(ex.map(lambda p_: ctx.harness(["stats", "replay", p_], timeout=3000, env={"RAYON_NUM_THREADS": 2})[-1], paths))
+    res = {}
+    for part in parts:
+        for k, v in part.items():
+            if isinstance(v, bool):
+                res[k] = v
+            elif isinstance(v, (int, float)):
+                res[k] = res.get(k, 0) + v
+            elif isinstance(v, list):
+                res.setdefault(k, [])
+                res[k] += v
+    return res
 
 
 def run_big(ctx, which):
